@@ -9,7 +9,11 @@ payload: {"ops": [op, ...]}; every float crosses as a 64-bit integer.  op = dict
   cb_disp / cb_der               upper, lower, ac, tc, dir, speed, dE     (cell-bounding, stub estimator)
   bend_der                       k_, phi0, dir, speed, sep1, sep2
   ipc_disp / ipc_der             pref, c1, c2, sep, dir, speed, dE, L
-  mic_der                        alpha, fc(int), pc(int), pref, c1, c2, sep, dir, speed, L
+  mic_der                        alpha, fc(int), pc(int), pref, c1, c2, sep, dir, speed, L, [via]
+                                 via = orig (default) | deepcopy | tagger1 | tagger2 | dill | pickle:
+                                 which instance of the potential is asked (copy.deepcopy, the deep copies a real
+                                 Tagger.initialize with number_event_handlers = 3 makes of its event handler,
+                                 dill / pickle round trip through __getstate__/__setstate__)
 result per op: [bits] (or [bits, bits, bits] for bend_der), or ["EXC", exception class, message].
 """
 from drvutil import read_payload, emit, f2b, b2f, assert_scratch
@@ -37,7 +41,7 @@ def ensure_setting(L, dim=3):
     hypercubic_setting.HypercubicSetting(beta=1.0, dimension=dim, system_length=L)
     setting.set_number_of_root_nodes(2)
     setting.set_number_of_nodes_per_root_node(2)
-    setting.set_number_of_node_levels(1)
+    setting.set_number_of_node_levels(2)
     _state["L"] = L
     _state["dim"] = dim
     for key in [k for k in _cache if k[0] in ("ipc", "mic", "bend")]:
@@ -152,8 +156,49 @@ def run_op(op):
         pot = cached(("mic", op["alpha"], op["fc"], op["pc"], op["pref"]),
                      lambda: m.MergedImageCoulombPotential(alpha=fl(op, "alpha"), fourier_cutoff=int(op["fc"]),
                                                            position_cutoff=int(op["pc"]), prefactor=fl(op, "pref")))
+        via = op.get("via", "orig")
+        if via != "orig":
+            pot = mic_variant(pot, via, ("mic", op["alpha"], op["fc"], op["pc"], op["pref"], via))
         return [f2b(pot.derivative(vel(op), vec(op, "sep"), fl(op, "c1"), fl(op, "c2")))]
     return ["EXC", "UnknownOp", k]
+
+
+def mic_variant(pot, via, key):
+    """another instance of the same potential, obtained the way the application obtains it"""
+    if key in _cache:
+        return _cache[key]
+    import copy
+    if via == "deepcopy":
+        inst = copy.deepcopy(pot)
+    elif via in ("tagger1", "tagger2"):
+        tkey = key[:-1] + ("tagger",)
+        if tkey not in _cache:
+            from jellyfysh.activator.tagger.active_root_unit_in_state_tagger import ActiveRootUnitInStateTagger
+            from jellyfysh.event_handler.two_leaf_unit_bounding_potential_event_handler import \
+                TwoLeafUnitBoundingPotentialEventHandler
+            from jellyfysh.potential.inverse_power_coulomb_bounding_potential import \
+                inverse_power_coulomb_bounding_potential as ipc_m
+            handler = TwoLeafUnitBoundingPotentialEventHandler(
+                potential=pot, bounding_potential=ipc_m.InversePowerCoulombBoundingPotential(prefactor=1.5837),
+                charge="electric_charge")
+            tagger = ActiveRootUnitInStateTagger(create=[], trash=[], event_handler=handler, number_event_handlers=3,
+                                                 tag="coulomb")
+            tagger.initialize()
+            hs = tagger.get_event_handlers()
+            assert hs[0]._potential is pot and len(hs) == 3
+            _cache[tkey] = hs
+        inst = _cache[tkey][int(via[-1])]._potential
+        assert inst is not pot
+    elif via == "dill":
+        import dill
+        inst = dill.loads(dill.dumps(pot))
+    elif via == "pickle":
+        import pickle
+        inst = pickle.loads(pickle.dumps(pot))
+    else:
+        raise KeyError(via)
+    _cache[key] = inst
+    return inst
 
 
 ops = read_payload()["ops"]
